@@ -545,6 +545,50 @@ fn run_query(st: &mut St, a: &[&str]) -> R {
             let (i, j) = phylotree::verif_hooks::rowvec_to_tril_index(usz(a[1]), usz(a[2]));
             Ok(format!("{} {}", i, j))
         }
+        "rowvec_sweep" => {
+            // rowvec_sweep lo hi step: every triangular number T(p), p in lo..hi by step, and its two neighbours,
+            // against the exact integer inverse (u128 integer square root)
+            let lo: u128 = a[1].parse().unwrap();
+            let hi: u128 = a[2].parse().unwrap();
+            let step: u128 = a[3].parse().unwrap();
+            fn isqrt(n: u128) -> u128 {
+                if n == 0 {
+                    return 0;
+                }
+                let mut x = (n as f64).sqrt() as u128;
+                while x * x > n {
+                    x -= 1;
+                }
+                while (x + 1) * (x + 1) <= n {
+                    x += 1;
+                }
+                x
+            }
+            let mut checked: u64 = 0;
+            let mut bad: u64 = 0;
+            let mut first: i128 = -1;
+            let mut p = lo;
+            while p < hi {
+                let t = p * (p + 1) / 2;
+                for k in [t.wrapping_sub(1), t, t + 1] {
+                    if k > (1u128 << 100) {
+                        continue;
+                    }
+                    let pe = (isqrt(8 * k + 1) - 1) / 2;
+                    let exp = ((pe + 1) as usize, (k - pe * (pe + 1) / 2) as usize);
+                    let got = phylotree::verif_hooks::rowvec_to_tril_index(0, k as usize);
+                    checked += 1;
+                    if got != exp {
+                        bad += 1;
+                        if first < 0 {
+                            first = k as i128;
+                        }
+                    }
+                }
+                p += step;
+            }
+            Ok(format!("{} {} {}", checked, bad, first))
+        }
         "stdfmt" => {
             let v = dec_len(a[1]).unwrap();
             Ok(enc_str(&format!("{}", v)))
